@@ -217,6 +217,11 @@ Section Pending.
       + apply NN. ll.
       + apply NN. ll.
       + (* KInjected *) exact C.
+      + (* KMacro *) destruct (interrupt_registered (st s n)); [exact C|]. apply NN.
+        set (s1 := with_macros s _). apply (le_trans s s1); [now apply le_same|]. apply le_set_ns. cbn. exact id.
+      + (* KCallMacro *) destruct (macro_lookup (macros s) name) as [m|]; [|exact C].
+        destruct (would_recurse p s name m); [exact C|]. destruct (n_kind (nd p m)); try exact C. destruct (Nat.leb _ _); [|exact C]. apply NN.
+        eapply le_trans; [apply le_reset_tree|]. apply le_set_ns. cbn. exact id.
     - exact C.
     - destruct (_ || _); exact C.
     - (* FKids *) destruct (nth_error (n_children (nd p n)) i) as [c|]; [|apply NN; ll].
@@ -256,6 +261,9 @@ Section Pending.
       eapply le_trans; [|apply le_reset_tree]. eapply le_trans; [|apply le_unregister]. eapply le_trans; [apply le_mark_completed|].
       apply le_set_ns. cbn. exact id.
     - (* FInjAfter *) apply NN. ll.
+    - (* FMacro1 *) apply NN. ll.
+    - (* FCallAfter *) apply NN. eapply le_trans; [|apply le_mark_completed]. eapply le_trans; [|apply le_complete].
+      apply le_set_ns. cbn. exact id.
   Qed.
 
   Lemma I_init : I (init p). Proof. intros x []. Qed.
